@@ -206,13 +206,51 @@ def format_to_joined(tmpl: str, call: ast.Call) -> Optional[ast.AST]:
     return ast.JoinedStr(values=merged)
 
 
-def unroll_comprehension(n: ast.AST) -> Optional[ast.AST]:
-    """A comprehension over a constant display, written out as the display of its elements."""
+def zip_to_display(e: ast.AST) -> Optional[ast.AST]:
+    """zip((a, b), (c, d)) as ((a, c), (b, d)); enumerate((a, b)) as ((0, a), (1, b))."""
+    if isinstance(e, ast.Call) and isinstance(e.func, ast.Name) and not e.keywords and e.args:
+        if e.func.id == "zip" and all(isinstance(a, (ast.Tuple, ast.List)) and not any(isinstance(x, ast.Starred) for x in a.elts) for a in e.args) \
+                and len({len(a.elts) for a in e.args}) == 1:
+            return ast.Tuple(elts=[ast.Tuple(elts=[copy.deepcopy(a.elts[i]) for a in e.args], ctx=ast.Load()) for i in range(len(e.args[0].elts))], ctx=ast.Load())
+        if e.func.id == "enumerate" and len(e.args) == 1 and isinstance(e.args[0], (ast.Tuple, ast.List)):
+            return ast.Tuple(elts=[ast.Tuple(elts=[ast.Constant(value=i), copy.deepcopy(x)], ctx=ast.Load()) for i, x in enumerate(e.args[0].elts)], ctx=ast.Load())
+    return None
+
+
+def local_display(root: ast.AST, name: str) -> Optional[ast.AST]:
+    """The display a local holds: it is assigned exactly once (a tuple / list display or a zip of displays) and read exactly once."""
+    if not isinstance(root, (ast.FunctionDef, ast.AsyncFunctionDef)):
+        return None
+    stores = [x for x in ast.walk(root) if isinstance(x, ast.Name) and x.id == name and isinstance(x.ctx, (ast.Store, ast.Del))]
+    loads = [x for x in ast.walk(root) if isinstance(x, ast.Name) and x.id == name and isinstance(x.ctx, ast.Load)]
+    defs = [x for x in ast.walk(root) if isinstance(x, ast.Assign) and len(x.targets) == 1 and isinstance(x.targets[0], ast.Name) and x.targets[0].id == name]
+    if len(stores) != 1 or len(defs) != 1 or len(loads) != 1 or name in {a.arg for a in root.args.args + root.args.kwonlyargs + root.args.posonlyargs}:
+        return None
+    v = defs[0].value
+    if isinstance(v, (ast.Tuple, ast.List)) and not any(isinstance(x, ast.Starred) for x in v.elts):
+        return v
+    return zip_to_display(v)
+
+
+def unroll_comprehension(n: ast.AST, root: Optional[ast.AST] = None) -> Optional[ast.AST]:
+    """A comprehension over a display (of constants / plain names, or held by a single-use local), written out element by element."""
     if len(n.generators) != 1:
         return None
     g = n.generators[0]
-    if g.ifs or g.is_async or not isinstance(g.iter, (ast.Tuple, ast.List)) or not (1 <= len(g.iter.elts) <= 24) or not all(is_const_expr(x) for x in g.iter.elts):
+    it = g.iter
+    single_use = False
+    if isinstance(it, ast.Name) and root is not None:
+        d = local_display(root, it.id)
+        if d is not None:
+            it, single_use = d, True
+    elif zip_to_display(it) is not None:
+        it = zip_to_display(it)
+    if g.ifs or g.is_async or not isinstance(it, (ast.Tuple, ast.List)) or not (1 <= len(it.elts) <= 24):
         return None
+    if not single_use and not all(is_const_expr(x) or simple_arg(x) for x in it.elts):
+        return None         # (a display of constants / plain names: evaluating an element twice or not at all cannot matter)
+    g = copy.copy(g)
+    g.iter = it
 
     def bind(target, value, out):
         if isinstance(target, ast.Name):
@@ -319,6 +357,30 @@ def own_returns(stmts) -> bool:
 
 class Bail(Exception):
     pass
+
+
+MUTATOR_METHODS = ("append", "extend", "insert", "pop", "remove", "clear", "update", "setdefault", "popitem", "add", "discard", "sort", "reverse", "__setitem__", "__delitem__")
+
+
+def never_mutated(project, name: str) -> bool:
+    """No statement of the package stores into / calls a mutator on / aliases an object reached through this name."""
+    for m in project.modules.values():
+        for n in ast.walk(m.tree):
+            def is_it(x):
+                return (isinstance(x, ast.Name) and x.id == name) or (isinstance(x, ast.Attribute) and x.attr == name)
+            if isinstance(n, (ast.Subscript, ast.Attribute)) and isinstance(n.ctx, (ast.Store, ast.Del)) and is_it(n.value):
+                return False
+            if isinstance(n, ast.Call) and isinstance(n.func, ast.Attribute) and n.func.attr in MUTATOR_METHODS and is_it(n.func.value):
+                return False
+            if isinstance(n, ast.AugAssign) and is_it(n.target):
+                return False
+            if isinstance(n, ast.Assign) and is_it(n.value):
+                return False      # aliased: writes through the alias are not tracked
+            if isinstance(n, ast.Call) and any(is_it(a) for a in n.args) and not (isinstance(n.func, ast.Name) and n.func.id in ("len", "tuple", "list", "dict", "sorted", "max", "min", "sum", "any", "all", "enumerate", "zip", "frozenset", "set", "isinstance", "str", "repr")):
+                return False      # handed to a function that might write into it
+            if isinstance(n, ast.Return) and n.value is not None and is_it(n.value):
+                return False
+    return True
 
 
 # ------------------------------------------------------------------------------------------------ expression-like helpers
@@ -585,8 +647,8 @@ class Inliner:
                     continue
                 stores = sum(1 for n in ast.walk(m.tree) if isinstance(n, ast.Name) and n.id == nm and isinstance(n.ctx, (ast.Store, ast.Del)))
                 glob = any(isinstance(n, ast.Global) and nm in n.names for n in ast.walk(m.tree))
-                if stores == 1 and not glob and is_const_expr(expr) and not isinstance(expr, (ast.Dict, ast.List, ast.Set)):
-                    self.new_consts[q] = expr       # (a bare dict / list / set display is a mutable object, not a constant: left alone)
+                if stores == 1 and not glob and is_const_expr(expr) and (not isinstance(expr, (ast.Dict, ast.List, ast.Set)) or never_mutated(project, nm)):
+                    self.new_consts[q] = expr       # (a dict / list / set display counts only if nothing in the package writes into an object of that name)
         self.counter = 0
         self.log: List[str] = []
         for q, fi in list(self.new_funcs.items()):
@@ -676,13 +738,43 @@ class Inliner:
 
             def _unroll(self, n):
                 self.generic_visit(n)
-                r = unroll_comprehension(n)
+                r = unroll_comprehension(n, root)
                 if r is not None:
                     count[0] += 1
                     return at(r, n)
                 return n
 
             visit_ListComp = visit_SetComp = visit_GeneratorExp = visit_DictComp = _unroll
+
+            def visit_Assign(self, n):
+                self.generic_visit(n)
+                v = n.value
+                if len(n.targets) == 1 and isinstance(n.targets[0], (ast.Tuple, ast.List)) and isinstance(v, ast.Call) and isinstance(v.func, ast.Name) and v.func.id == "map" \
+                        and sc.resolve(v.func) == "builtins.map" and len(v.args) == 2 and not v.keywords and isinstance(v.args[0], (ast.Name, ast.Attribute)) \
+                        and isinstance(v.args[1], (ast.Tuple, ast.List)) and len(v.args[1].elts) == len(n.targets[0].elts) and all(simple_arg(x) for x in v.args[1].elts):
+                    # a, b, c = map(f, (x, y, z))  ==  a, b, c = f(x), f(y), f(z)
+                    count[0] += 1
+                    n.value = at(ast.Tuple(elts=[ast.Call(func=copy.deepcopy(v.args[0]), args=[copy.deepcopy(x)], keywords=[]) for x in v.args[1].elts], ctx=ast.Load()), v)
+                return n
+
+            def visit_BinOp(self, n):
+                self.generic_visit(n)
+                if isinstance(n.op, ast.Mult):
+                    for d, k in ((n.left, n.right), (n.right, n.left)):
+                        if isinstance(d, ast.Tuple) and isinstance(k, ast.Constant) and isinstance(k.value, int) and not isinstance(k.value, bool) and 1 <= k.value <= 8 \
+                                and all(simple_arg(x) for x in d.elts) and len(d.elts) * k.value <= 16:
+                            count[0] += 1
+                            return at(ast.Tuple(elts=[copy.deepcopy(x) for _ in range(k.value) for x in d.elts], ctx=ast.Load()), n)     # (x,) * 3 == (x, x, x)
+                return n
+
+            def visit_Subscript(self, n):
+                self.generic_visit(n)
+                if isinstance(n.ctx, ast.Load):
+                    r = table_lookup_to_conditional(n)
+                    if r is not None:
+                        count[0] += 1
+                        return at(r, n)
+                return n
 
             def visit_Call(self, n):
                 self.generic_visit(n)
@@ -693,6 +785,11 @@ class Inliner:
                     if j is not None:
                         count[0] += 1
                         return at(j, n)
+                if isinstance(f, ast.Name) and f.id in ("tuple", "list") and len(n.args) == 1 and not n.keywords and isinstance(n.args[0], (ast.Tuple, ast.List)) \
+                        and sc.resolve(f) == f"builtins.{f.id}" and not any(isinstance(x, ast.Starred) for x in n.args[0].elts):
+                    count[0] += 1
+                    d = n.args[0]
+                    return at(ast.Tuple(elts=d.elts, ctx=ast.Load()) if f.id == "tuple" else ast.List(elts=d.elts, ctx=ast.Load()), n)
                 q = sc.resolve_call(n)
                 if q in me.new_funcs and (fi is None or q != fi.qualname):
                     e = me.as_expression(q, n, sc, fi)
@@ -879,6 +976,145 @@ class Replace(ast.NodeTransformer):
         return super().visit(node)
 
 
+def _bool_test(e: ast.AST) -> Optional[ast.AST]:
+    """The expression whose truth value a boolean-valued key component denotes (bool(x) -> x; comparisons / not: themselves)."""
+    if isinstance(e, ast.Call) and isinstance(e.func, ast.Name) and e.func.id == "bool" and len(e.args) == 1 and not e.keywords:
+        return e.args[0]
+    if isinstance(e, (ast.Compare, ast.BoolOp)) or (isinstance(e, ast.UnaryOp) and isinstance(e.op, ast.Not)):
+        return e
+    return None
+
+
+def table_lookup_to_conditional(node: ast.Subscript) -> Optional[ast.AST]:
+    """`{(True, True): A, (True, False): B, ...}[bool(p), bool(q)]` (every combination present) as the decision tree
+    `(A if q else B) if p else (...)`; likewise a one-dimensional `{True: A, False: B}[bool(p)]`."""
+    d = node.value
+    if not isinstance(d, ast.Dict) or not d.keys or any(k is None for k in d.keys):
+        return None
+    key = node.slice
+    comps = list(key.elts) if isinstance(key, ast.Tuple) else [key]
+    tests = [_bool_test(c) for c in comps]
+    if any(t is None for t in tests):
+        return None
+    table = {}
+    for k, v in zip(d.keys, d.values):
+        ks = list(k.elts) if isinstance(k, ast.Tuple) else [k]
+        if len(ks) != len(comps) or not all(isinstance(x, ast.Constant) and isinstance(x.value, bool) for x in ks):
+            return None
+        table[tuple(x.value for x in ks)] = v
+    if len(table) != 2 ** len(comps):
+        return None
+
+    def build(prefix, i):
+        if i == len(comps):
+            return copy.deepcopy(table[tuple(prefix)])
+        return ast.IfExp(test=copy.deepcopy(tests[i]), body=build(prefix + [True], i + 1), orelse=build(prefix + [False], i + 1))
+    return build([], 0)
+
+
+def lift_conditionals(fn: ast.AST) -> int:
+    """Statement-level spelling of conditionals that choose among whole values:
+      `a, b = (X if c else Y)`            -> `if c: a, b = X` / `else: a, b = Y`   (so that tuple assignments can be split)
+      `return (X if c else Y, Z)`          -> `if c: return (X, Z)` / `else: return (Y, Z)`
+    Only when nothing evaluated before the condition can have an effect (names, constants, attribute reads)."""
+    count = [0]
+
+    def pure(e):
+        return all(isinstance(n, (ast.Name, ast.Constant, ast.Attribute, ast.Tuple, ast.List, ast.Load, ast.Store, ast.UnaryOp, ast.USub, ast.UAdd, ast.Not, ast.expr_context)) for n in ast.walk(e))
+
+    def expand(st):
+        """-> list of statements replacing st (or None)"""
+        if isinstance(st, ast.Assign) and len(st.targets) == 1 and isinstance(st.targets[0], (ast.Tuple, ast.List)) and isinstance(st.value, ast.IfExp) \
+                and isinstance(st.value.body, (ast.Tuple, ast.List, ast.IfExp)) and isinstance(st.value.orelse, (ast.Tuple, ast.List, ast.IfExp)):
+            names = {n.id for n in ast.walk(st.targets[0]) if isinstance(n, ast.Name)}
+            if names & {n.id for n in ast.walk(st.value.test) if isinstance(n, ast.Name)}:
+                return None
+            v = st.value
+            a = ast.copy_location(ast.Assign(targets=[copy.deepcopy(st.targets[0])], value=v.body), st)
+            b = ast.copy_location(ast.Assign(targets=[copy.deepcopy(st.targets[0])], value=v.orelse), st)
+            return [ast.copy_location(ast.If(test=v.test, body=expand(a) or [a], orelse=expand(b) or [b]), st)]
+        if isinstance(st, ast.Return) and isinstance(st.value, ast.Tuple):
+            for i, e in enumerate(st.value.elts):
+                if isinstance(e, ast.IfExp) and all(pure(x) for x in st.value.elts[:i]):
+                    def variant(x, i=i):
+                        t = copy.deepcopy(st.value)
+                        t.elts[i] = x
+                        return ast.copy_location(ast.Return(value=t), st)
+                    a, b = variant(e.body), variant(e.orelse)
+                    return [ast.copy_location(ast.If(test=e.test, body=expand(a) or [a], orelse=expand(b) or [b]), st)]
+        return None
+
+    def block(stmts):
+        out = []
+        for st in stmts:
+            if isinstance(st, (ast.FunctionDef, ast.AsyncFunctionDef, ast.ClassDef)):
+                out.append(st)
+                continue
+            for fld in ("body", "orelse", "finalbody"):
+                if getattr(st, fld, None):
+                    setattr(st, fld, block(getattr(st, fld)))
+            for h in getattr(st, "handlers", []) or []:
+                h.body = block(h.body)
+            r = expand(st)
+            if r is not None:
+                count[0] += 1
+                out.extend(r)
+            else:
+                out.append(st)
+        return out
+    fn.body = block(fn.body)
+    if count[0]:
+        ast.fix_missing_locations(fn)
+    return count[0]
+
+
+def sink_common_append(fn: ast.AST) -> int:
+    """`if c: x = A; y = B` / `else: x = C; y = D` followed by `acc.append((x, y))`: the append is copied to the end of both
+    branches (tail duplication: same executions, but each copy sees which x goes with which y)."""
+    count = [0]
+
+    def assigned(stmts):
+        out = set()
+        for st in stmts:
+            for n in ast.walk(st):
+                if isinstance(n, ast.Name) and isinstance(n.ctx, ast.Store):
+                    out.add(n.id)
+        return out
+
+    def falls_through(stmts):
+        return not any(isinstance(n, (ast.Return, ast.Raise, ast.Continue, ast.Break)) for st in stmts for n in ast.walk(st))
+
+    def block(stmts):
+        stmts = list(stmts)
+        i = 0
+        while i < len(stmts):
+            st = stmts[i]
+            if not isinstance(st, (ast.FunctionDef, ast.AsyncFunctionDef, ast.ClassDef)):
+                for fld in ("body", "orelse", "finalbody"):
+                    if getattr(st, fld, None):
+                        setattr(st, fld, block(getattr(st, fld)))
+                for h in getattr(st, "handlers", []) or []:
+                    h.body = block(h.body)
+            if isinstance(st, ast.If) and st.orelse and i + 1 < len(stmts) and falls_through(st.body) and falls_through(st.orelse):
+                nxt = stmts[i + 1]
+                if isinstance(nxt, ast.Expr) and isinstance(nxt.value, ast.Call) and isinstance(nxt.value.func, ast.Attribute) and nxt.value.func.attr == "append" \
+                        and isinstance(nxt.value.func.value, ast.Name):
+                    reads = {n.id for n in ast.walk(nxt) if isinstance(n, ast.Name) and isinstance(n.ctx, ast.Load)}
+                    both = assigned(st.body) & assigned(st.orelse) & reads
+                    if len(both) >= 2:
+                        st.body = st.body + [copy.deepcopy(nxt)]
+                        st.orelse = st.orelse + [copy.deepcopy(nxt)]
+                        del stmts[i + 1]
+                        count[0] += 1
+                        continue        # re-examine: nested if/else inside the branches were already handled
+            i += 1
+        return stmts
+    fn.body = block(fn.body)
+    if count[0]:
+        ast.fix_missing_locations(fn)
+    return count[0]
+
+
 def split_assignments(fn: ast.AST) -> int:
     """`a, b = x, y` -> `a = x; b = y` (when no right-hand side reads a left-hand name) and `a = b = v` -> `a = v; b = v`
     (v a constant / conditional of constants): the same stores, one target each."""
@@ -909,6 +1145,14 @@ def split_assignments(fn: ast.AST) -> int:
                         out.append(ast.copy_location(ast.Assign(targets=[t], value=v), st))
                     count[0] += 1
                     continue
+            if isinstance(st, ast.Assign) and len(st.targets) > 1 and isinstance(st.targets[0], ast.Name) and not simple_value(st.value) \
+                    and not any(isinstance(n, ast.Name) and n.id == st.targets[0].id for t in st.targets[1:] for n in ast.walk(t)):
+                # a = b[k] = V   ==   a = V; b[k] = a      (V is evaluated once, targets are bound left to right)
+                out.append(ast.copy_location(ast.Assign(targets=[st.targets[0]], value=st.value), st))
+                for t in st.targets[1:]:
+                    out.append(ast.copy_location(ast.Assign(targets=[t], value=ast.Name(id=st.targets[0].id, ctx=ast.Load())), st))
+                count[0] += 1
+                continue
             if isinstance(st, ast.Assign) and len(st.targets) > 1 and all(isinstance(t, ast.Name) for t in st.targets) and simple_value(st.value):
                 for t in st.targets:
                     out.append(ast.copy_location(ast.Assign(targets=[t], value=copy.deepcopy(st.value)), st))
@@ -936,7 +1180,9 @@ def normalize(project) -> List[str]:
         pass
     inl.run()
     for fi in project.funcs.values():
+        lift_conditionals(fi.node)
         split_assignments(fi.node)
+        sink_common_append(fi.node)
     for m in project.modules.values():
         ast.fix_missing_locations(m.tree)
     # a private new helper whose every call site was inlined is judged through its callers, in their context
